@@ -4,9 +4,10 @@ Job steps, part 4: the view the commit produces, and the steps around the commit
 -/
 namespace GoLevel.Dur
 
-/-- the kind of a job in a state satisfying the invariant is one of the three the core machine spawns -/
+/-- the kind of a job in a state satisfying the invariant is one of the four the machine spawns outside
+    transactions -/
 theorem JobOK.kinds {cfg : Cfg} {s : St} {d : Disk} {j : Job} (h : JobOK cfg s d j) :
-    j.kind = .flush ∨ j.kind = .recovMid ∨ j.kind = .recovFinal := by
+    j.kind = .flush ∨ j.kind = .recovMid ∨ j.kind = .recovFinal ∨ j.kind = .compaction ∨ j.kind = .tr := by
   have hk := h.kind
   unfold JobKindOK at hk
   cases hkk : j.kind <;> rw [hkk] at hk <;> simp_all
@@ -17,10 +18,12 @@ theorem Inv.editOK {cfg : Cfg} {s : St} {d : Disk} (h : Inv cfg s d) {j : Job} (
     ∃ v, lastView cfg d = some v ∧ EditOK s d j e v := by
   have hok := h.job
   rw [hj] at hok
-  rcases hok.kinds with hk | hk | hk
+  rcases hok.kinds with hk | hk | hk | hk | hk
   · exact h.editOK_flush hj hk he hbc
   · exact h.editOK_recovMid hj hk he hbc
   · exact h.editOK_recovFinal hj hk he hbc hpc
+  · exact h.editOK_compaction hj hk he hbc
+  · exact h.editOK_tr hj hk he hbc
 
 /-- the journals a recovery still has to replay are not below the journal number of the job's edit -/
 theorem Inv.todo_ge_edit {cfg : Cfg} {s : St} {d : Disk} (h : Inv cfg s d) {j : Job} (hj : s.job = some j)
@@ -35,7 +38,10 @@ theorem Inv.todo_ge_edit {cfg : Cfg} {s : St} {d : Disk} (h : Inv cfg s d) {j : 
   rw [hr] at hrec
   have hrec : RecOK cfg s d r := hrec
   intro n hn
-  rcases hok.kinds with hk | hk | hk <;> rw [hk] at hkind <;> simp only at hkind
+  rcases hok.kinds with hk | hk | hk | hk | hk <;> rw [hk] at hkind <;> simp only at hkind
+  rotate_right 2
+  · rw [hph] at hkind; exact absurd hkind.1 (by decide)
+  · rw [hph] at hkind; exact absurd hkind.1 (by decide)
   · rw [hph] at hkind; exact absurd hkind.1 (by decide)
   · obtain ⟨_, _, hkind⟩ := hkind
     have hkind := holds_some hkind hr
@@ -79,12 +85,7 @@ theorem Inv.commit_view {cfg : Cfg} {s : St} {d : Disk} (h : Inv cfg s d) {j : J
   have hbv := hb.all mf hparts.cur _ (Nat.le_refl _) v hvl
   have hext := hvok.extend hed (fun g hg => hg) (hok.outs_on_disk hbc hpc.2) s.nextFile hbv.2.1
     (fun o ho => (hed.fresh o ho).2) hed.mono.2.2.2.2
-  refine ⟨mf, v0, v, hparts, hv, hvl, hed, hext.2, ?_⟩
-  obtain ⟨_, _, _, _, hjn, _⟩ := hed.shape
-  obtain ⟨jn', ejn⟩ := Option.isSome_iff_exists.1 hjn
-  have := hed.mono.1
-  simp only [ejn, Option.getD_some] at this ⊢
-  omega
+  exact ⟨mf, v0, v, hparts, hv, hvl, hed, hext, Nat.le_trans hmono hed.mono.1⟩
 
 
 /-- `JobOK` for the next pc after the table phase: journals and tables stay, the caller supplies the
@@ -96,16 +97,26 @@ theorem JobOK.late_next {cfg : Cfg} {s : St} {d d' : Disk} {j : Job} (h : JobOK 
     (hlate' : j'.pc ≠ .mkJournal ∧ j'.pc.tablesDone = true)
     (nf' : Nat) (l' : List Nat) (a' b' : Nat) (m' : Option Nat) (o' : Bool) (hnf : s.nextFile ≤ nf')
     (hj : d'.journals = d.journals) (ht : j'.pc.beforeCommit = true → d'.tables = d.tables)
-    (hone : j'.rmTables = [] ∨ j'.kind = .recovFinal)
+    (hone : j'.rmTables = [] ∨ j'.kind = .recovFinal ∨ j'.kind = .compaction)
     (hman : JobManifestOK cfg (s.upd j' nf' l' a' b' m' o') d' j')
     (hbc : j'.pc.beforeCommit = true → j.pc.beforeCommit = true ∧ curManifest d' = curManifest d)
     (hrm : Holds (lastView cfg d') (RemovalsOK (s.upd j' nf' l' a' b' m' o') d' j'))
-    (hne : j.edit = none → j'.pc.post = true) :
+    (hne : j.edit = none → j'.pc.post = true)
+    (hrmT : j.kind = .compaction ∨ j.kind = .tr → j'.rmTables = j.rmTables)
+    (hlive : j'.pc.beforeCommit = true → l' = s.live)
+    (hcom : j'.pc.beforeCommit = false → Holds (lastView cfg d') fun v =>
+      ∀ o ∈ j.outs, o.1 ∈ v.live ∧ lookup d'.tables o.1 = some ⟨o.2, true, false⟩) :
     JobOK cfg (s.upd j' nf' l' a' b' m' o') d' j' := by
-  obtain ⟨h1, h2, h3, h4, h5, h6, h7, h8, h9, h10⟩ := h
+  obtain ⟨h1, h2, h3, h4, h5, h6, h7, h8, h9, h10, h11, h12⟩ := h
   obtain ⟨k1, k2, k3, k4, k5⟩ := hj'
-  refine ⟨⟨by rw [k2]; exact h1.1, hone⟩, ?_, hman, ⟨?_, ?_⟩, ?_, ?_, ?_, ?_, hrm, by rw [k4]; exact hne⟩
-  · exact h2.transport rfl rfl rfl rfl rfl rfl rfl k1 k4 k2 k5 k3 (fun hb => (hbc hb).1)
+  refine ⟨⟨by rw [k2]; exact h1.1, hone⟩, ?_, hman, ⟨?_, ?_⟩, ?_, ?_, ?_, ?_, hrm, (by rw [k4]; exact hne), ?_,
+    (by rw [k2]; exact hcom)⟩
+  rotate_right
+  · rw [k4]
+    exact Holds'.imp (o := j.edit) h11 (fun e he0 => he0.transport k1 k2 (fun hk => hrmT (Or.inl hk))
+      (fun hb => (hbc hb).1) hlive (fun hb t _ => by rw [ht hb]))
+  · exact h2.transport rfl rfl rfl rfl rfl rfl rfl k1 k4 k2 k5 k3 (fun hb => (hbc hb).1) rfl rfl
+      (fun hk => hrmT (Or.inr hk))
   · rw [k2]; exact fun o ho => Nat.lt_of_lt_of_le (h4.1 o ho) hnf
   · intro hb
     obtain ⟨hb1, hcm⟩ := hbc hb
@@ -145,6 +156,101 @@ theorem JobOK.late_next {cfg : Cfg} {s : St} {d d' : Disk} {j : Job} (h : JobOK 
       · exact absurd hx hlate.1
       · rw [hlate.2] at hx; cases hx
 
+/-- in the running phase a job is a memdb flush, a table compaction or the commit of a transaction -/
+theorem JobOK.kind_running {cfg : Cfg} {s : St} {d : Disk} {j : Job} (h : JobOK cfg s d j) (hr : s.phase = .running) :
+    j.kind = .flush ∨ j.kind = .compaction ∨ j.kind = .tr := by
+  have hk := h.kind
+  unfold JobKindOK at hk
+  rcases h.kinds with hkk | hkk | hkk | hkk | hkk
+  · exact Or.inl hkk
+  · rw [hkk] at hk; simp only at hk; rw [hr] at hk; exact absurd hk.1 (by decide)
+  · rw [hkk] at hk; simp only at hk; rw [hr] at hk; exact absurd hk.1 (by decide)
+  · exact Or.inr (Or.inl hkk)
+  · exact Or.inr (Or.inr hkk)
+
+/-- a compaction's edit carries neither a journal nor a sequence number; every other edit deletes nothing and
+    carries a sequence number, and, except for a transaction, a journal number -/
+theorem JobOK.edit_nums {cfg : Cfg} {s : St} {d : Disk} {j : Job} (h : JobOK cfg s d j) {e : MRec}
+    (he : j.edit = some e) :
+    (j.kind = .compaction → e.jn = none ∧ e.sq = none) ∧
+    (j.kind ≠ .compaction → e.deleted = [] ∧ (j.kind ≠ .tr → e.jn.isSome) ∧ e.sq.isSome) ∧
+    (j.kind = .tr → e.jn = none) := by
+  have x := h.inputs
+  rw [he] at x
+  have x : InputsOK s d j e := x
+  unfold InputsOK at x
+  refine ⟨?_, ?_, ?_⟩
+  · intro hk; rw [if_pos hk] at x; exact ⟨x.1, x.2.1⟩
+  · intro hk; rw [if_neg hk] at x; exact x
+  · intro hk
+    have hkind := h.kind
+    unfold JobKindOK at hkind
+    rw [hk] at hkind
+    simp only at hkind
+    obtain ⟨_, _, _, _, hkind⟩ := hkind
+    rw [holds_iff] at hkind
+    obtain ⟨g, _, hkind⟩ := hkind
+    rw [he] at hkind
+    exact hkind.1
+
+/-- outside the running phase the edit of a job names its journal -/
+theorem JobOK.jn_getD {cfg : Cfg} {s : St} {d : Disk} {j : Job} (h : JobOK cfg s d j) (hr : s.phase ≠ .running)
+    {e : MRec} (he : j.edit = some e) (x : Nat) : e.jn.getD x = e.jn.getD 0 := by
+  have hk : j.kind ≠ .compaction := by
+    intro hk
+    have := h.kind
+    unfold JobKindOK at this
+    rw [hk] at this
+    exact hr this.1
+  have hk2 : j.kind ≠ .tr := by
+    intro hk
+    have := h.kind
+    unfold JobKindOK at this
+    rw [hk] at this
+    exact hr this.1
+  obtain ⟨_, hjs, _⟩ := (h.edit_nums he).2.1 hk
+  have hjs := hjs hk2
+  obtain ⟨y, ey⟩ := Option.isSome_iff_exists.1 hjs
+  rw [ey]; rfl
+
+/-- the argument `RunOK.job_step` wants about the frozen buffer, for a step that ends behind the commit: a
+    flush job has committed (nothing to show), a compaction does not touch the journal and sequence numbers, a
+    transaction has no frozen buffer beside it -/
+theorem RunOK.hnc_post {cfg : Cfg} {s : St} {d d' : Disk} {j j' : Job} (hrun : RunOK cfg s d) (hok : JobOK cfg s d j)
+    (hj : s.job = some j) (hr : s.phase = .running) (hk' : j'.kind = j.kind) (hpost : j'.pc.beforeCommit = false)
+    {nf' : Nat} {l' : List Nat} {a' b' : Nat} {m' : Option Nat} {o' : Bool}
+    (hv : j.kind = .compaction →
+      Holds (lastView cfg d') fun v' => Holds (lastView cfg d) fun v => v'.jn ≤ v.jn ∧ v'.sq ≤ v.sq) :
+    s.frozen ≠ none → FlushPending (s.upd j' nf' l' a' b' m' o') → FlushPending s ∧
+      Holds (lastView cfg d') fun v' => Holds (lastView cfg d) fun v => v'.jn ≤ v.jn ∧ v'.sq ≤ v.sq := by
+  intro hfz hfp
+  have hfp' : j'.kind = .flush → j'.pc.beforeCommit = true := hfp
+  rcases hok.kind_running hr with hk | hk | hk
+  · have := hfp' (hk'.trans hk)
+    rw [hpost] at this; cases this
+  · refine ⟨?_, hv hk⟩
+    unfold FlushPending
+    rw [hj]
+    intro hf
+    rw [hk] at hf; cases hf
+  · -- an open transaction: nothing is frozen
+    exfalso
+    have hkind := hok.kind
+    unfold JobKindOK at hkind
+    rw [hk] at hkind
+    simp only at hkind
+    obtain ⟨_, _, _, _, hkind⟩ := hkind
+    rw [holds_iff] at hkind
+    obtain ⟨g, hg, _⟩ := hkind
+    have htr := hrun.norecov.2
+    unfold TrOK at htr
+    rw [hg] at htr
+    exact hfz htr.2.2.1
+
+theorem views_refl {cfg : Cfg} {d d' : Disk} {v : MView} (h' : lastView cfg d' = some v) (h : lastView cfg d = some v) :
+    Holds (lastView cfg d') fun v' => Holds (lastView cfg d) fun v => v'.jn ≤ v.jn ∧ v'.sq ≤ v.sq :=
+  holds_of_some h' (holds_of_some h ⟨Nat.le_refl _, Nat.le_refl _⟩)
+
 theorem late_not_rm {s : St} {d : Disk} {j : Job} {v : MView}
     (h : (∀ l, j.pc ≠ .rmJ l) ∧ (∀ l, j.pc ≠ .rmT l) ∧ ∀ l, j.pc ≠ .rmM l) : RemovalsOK s d j v := by
   unfold RemovalsOK
@@ -156,9 +262,9 @@ theorem late_not_rm {s : St} {d : Disk} {j : Job} {v : MView}
 
 /-- `ViewBounds` after one more record in the current manifest -/
 theorem ViewBounds.append {cfg : Cfg} {s s' : St} {d : Disk} {m : Nat} (h : ViewBounds cfg s d) (hc : d.current = some m)
-    (r : MRec) (hs : s'.seq = s.seq ∧ s'.nextFile = s.nextFile ∧ s'.phase = s.phase ∧ s'.jcur = s.jcur)
+    (r : MRec) (hs : seqHi s ≤ seqHi s' ∧ s'.nextFile = s.nextFile ∧ s'.phase = s.phase ∧ s'.jcur = s.jcur)
     (hnew : ∀ mf, curManifest d = some mf → Holds (((replayM cfg mf.all).step cfg r).view?) fun v =>
-      v.sq ≤ s.seq ∧ v.nf ≤ s.nextFile ∧ (s.phase = .running → v.jn ≤ s.jcur)) :
+      v.sq ≤ seqHi s' ∧ v.nf ≤ s.nextFile ∧ (s.phase = .running → v.jn ≤ s.jcur)) :
     ViewBounds cfg s' { d with manifests := d.manifests.modify m (·.append r) } := by
   unfold ViewBounds at h ⊢
   rw [curManifest_modify hc]
@@ -171,9 +277,12 @@ theorem ViewBounds.append {cfg : Cfg} {s s' : St} {d : Disk} {m : Nat} (h : View
     intro k hk
     have hlen : (mf.append r).unsynced.length = mf.unsynced.length + 1 := by simp [LogFile.append]
     rw [hlen] at hk
-    rw [e1, e2, e3, e4]
+    rw [e2, e3, e4]
     by_cases hk' : k ≤ mf.unsynced.length
-    · rw [viewAt_append_le cfg mf r hk']; exact h k hk'
+    · rw [viewAt_append_le cfg mf r hk']
+      have hh : Holds (viewAt cfg mf k) fun v =>
+          v.sq ≤ seqHi s ∧ v.nf ≤ s.nextFile ∧ (s.phase = .running → v.jn ≤ s.jcur) := h k hk'
+      exact hh.imp (fun v hv => ⟨Nat.le_trans hv.1 e1, hv.2⟩)
     · have : k = mf.unsynced.length + 1 := by omega
       subst this
       rw [viewAt_append_last]
